@@ -150,7 +150,11 @@ func Concretize(e *Edge, n int) Concrete {
 	case "DATACUT":
 		line("DATA")
 		parts := []string{"", "h", "hi\r\n", "hi\r\n.", "hi\r\n.\r", "NOOP\r\n"}
-		if part := parts[n%len(parts)]; part != "" {
+		part := parts[n%len(parts)]
+		if c.A == "over" {
+			part = "0123456789ab\r\n.\r"[:e.Cfg.MaxBytes+1+n%4]
+		}
+		if part != "" {
 			k.Phases = append(k.Phases, []byte(part))
 		}
 		k.ThenEOF = true
@@ -762,15 +766,27 @@ var Debug = false
 
 // Stats of a replay run.
 type Stats struct {
-	Edges, Covered, Steps, Convs, Blocked int
+	Edges, Covered, Steps, Convs, Blocked, Walked int
 	Samples                      []interface{}
 }
 
 // Tour covers every edge of g with greedy transition tours.
 func Tour(g *Graph, run *evid.Run, rng *rand.Rand, maxEdges int) (Stats, error) {
+	return TourFiltered(g, run, rng, maxEdges, nil)
+}
+
+// TourFiltered covers the edges selected by want (nil: all); other edges are
+// only walked to reach them (and are still compared when walked).
+func TourFiltered(g *Graph, run *evid.Run, rng *rand.Rand, maxEdges int, want func(*Edge) bool) (Stats, error) {
 	var st Stats
-	st.Edges = len(g.Edges)
 	covered := make([]bool, len(g.Edges))
+	for _, e := range g.Edges {
+		if want != nil && !want(e) {
+			covered[e.ID] = true
+		} else {
+			st.Edges++
+		}
+	}
 	srv := drv.Start(DrvCfg(g.Cfg))
 	defer srv.Stop()
 	var cv *Conv
@@ -837,6 +853,7 @@ func Tour(g *Graph, run *evid.Run, rng *rand.Rand, maxEdges int) (Stats, error) 
 				covered[e.ID] = true
 				st.Covered++
 			}
+			st.Walked++
 			for _, d := range divs {
 				if Debug {
 					fmt.Printf("DIV %s %s: %s\n", d.Prop, d.Key, d.Msg)
